@@ -32,11 +32,20 @@ func refLeb(u uint64) []byte {
 
 func enc32(o *hx.Out, cat string, v int32) {
 	var buf bytes.Buffer
-	n, err := pk.VarInt(v).WriteTo(&buf)
-	b := buf.Bytes()
+	var n int64
+	var err error
 	var tmp [pk.MaxVarIntLen]byte
-	n2 := pk.VarInt(v).WriteToBytes(tmp[:])
-	l := pk.VarInt(v).Len()
+	var n2, l int
+	if p := hx.Try(func() {
+		n, err = pk.VarInt(v).WriteTo(&buf)
+		n2 = pk.VarInt(v).WriteToBytes(tmp[:])
+		l = pk.VarInt(v).Len()
+	}); p != "" {
+		o.Case(cat, v < 0 || v >= 128, fmt.Sprintf("enc32 %d", v), fmt.Sprintf("enc32 %d panic", v))
+		o.Fail("C05.panic.enc32", "v=%d panic=%s", v, p)
+		return
+	}
+	b := buf.Bytes()
 	o.Case(cat, v < 0 || v >= 128, fmt.Sprintf("enc32 %d", v), fmt.Sprintf("enc32 %d %s %d", v, hx.Hex(b), l))
 	want := refLeb(uint64(uint32(v)))
 	if err != nil || !bytes.Equal(b, want) || int(n) != len(b) || l != len(b) || n2 != len(b) || !bytes.Equal(tmp[:n2], b) {
@@ -71,11 +80,20 @@ func prior(o *hx.Out) int64 {
 
 func enc64(o *hx.Out, cat string, v int64) {
 	var buf bytes.Buffer
-	n, err := pk.VarLong(v).WriteTo(&buf)
-	b := buf.Bytes()
+	var n int64
+	var err error
 	var tmp [pk.MaxVarLongLen]byte
-	n2 := pk.VarLong(v).WriteToBytes(tmp[:])
-	l := pk.VarLong(v).Len()
+	var n2, l int
+	if p := hx.Try(func() {
+		n, err = pk.VarLong(v).WriteTo(&buf)
+		n2 = pk.VarLong(v).WriteToBytes(tmp[:])
+		l = pk.VarLong(v).Len()
+	}); p != "" {
+		o.Case(cat, v < 0 || v >= 128, fmt.Sprintf("enc64 %d", v), fmt.Sprintf("enc64 %d panic", v))
+		o.Fail("C05.panic.enc64", "v=%d panic=%s", v, p)
+		return
+	}
+	b := buf.Bytes()
 	o.Case(cat, v < 0 || v >= 128, fmt.Sprintf("enc64 %d", v), fmt.Sprintf("enc64 %d %s %d", v, hx.Hex(b), l))
 	want := refLeb(uint64(v))
 	if err != nil || !bytes.Equal(b, want) || int(n) != len(b) || l != len(b) || n2 != len(b) || !bytes.Equal(tmp[:n2], b) {
@@ -151,6 +169,102 @@ func dec(o *hx.Out, cat string, wide bool, b []byte) {
 		// a complete encoding within the cap must be accepted
 		o.Fail("C05.reject."+op, "input=%s err=%v", hx.Hex(b), err)
 	}
+	if tdecSel(b) {
+		tdec(o, cat, wide, b)
+	}
+}
+
+// ---- phase 4: the same inputs against the TRANSLATED definitions (coq/Gen/C05gen.v), which the driver runs for
+// the case kinds tdec32/tdec64 (reader, br = 1: the source is an io.ByteReader, br = 0: it is not), tenc32/tenc64
+// (WriteTo) and trb (readByte, through the overlay export)
+
+// tdecSel thins the exhaustive two- and three-byte inputs for the translated readers (every first byte with
+// the continuation bit, and every 16th without)
+func tdecSel(b []byte) bool {
+	switch len(b) {
+	case 2:
+		return b[0]&0x80 != 0 || b[0]%16 == 0
+	case 3: // thorough tier only: the inputs whose third byte is reached
+		return b[0]&0x80 != 0 && b[1]&0x80 != 0
+	}
+	return true
+}
+
+func tdec(o *hx.Out, cat string, wide bool, b []byte) {
+	for br := 0; br <= 1; br++ {
+		rd := bytes.NewReader(b)
+		var src io.Reader = plain{rd}
+		if br == 1 {
+			src = rd
+		}
+		var val, nn int64
+		var err error
+		op := "tdec32"
+		if wide {
+			op = "tdec64"
+			v := pk.VarLong(prior(o))
+			nn, err = v.ReadFrom(src)
+			val = int64(v)
+		} else {
+			v := pk.VarInt(prior(o))
+			nn, err = v.ReadFrom(src)
+			val = int64(v)
+		}
+		line := fmt.Sprintf("%s %d %s err", op, br, hx.Hex(b))
+		if err == nil {
+			line = fmt.Sprintf("%s %d %s ok %d %d %d", op, br, hx.Hex(b), val, nn, rd.Len())
+		}
+		o.Case(cat+".translated", len(b) >= 2, fmt.Sprintf("%s %d %s", op, br, hx.Hex(b)), line)
+		if err == nil && int(nn) != len(b)-rd.Len() {
+			o.Fail("C05.count."+op, "input=%s br=%d n=%d consumed=%d", hx.Hex(b), br, nn, len(b)-rd.Len())
+		}
+	}
+}
+
+func trb(o *hx.Out, b []byte) {
+	for br := 0; br <= 1; br++ {
+		rd := bytes.NewReader(b)
+		var src io.Reader = plain{rd}
+		if br == 1 {
+			src = rd
+		}
+		n, v, err := pk.VerifC05ReadByte(src)
+		line := fmt.Sprintf("trb %d %s err", br, hx.Hex(b))
+		if err == nil {
+			line = fmt.Sprintf("trb %d %s ok %d %d %d", br, hx.Hex(b), n, v, rd.Len())
+		}
+		o.Case("readbyte.translated", len(b) >= 1, fmt.Sprintf("trb %d %s", br, hx.Hex(b)), line)
+		// the count is the number of bytes taken from the source, on both outcomes
+		if int(n) != len(b)-rd.Len() || (err == nil) != (len(b) > 0) || (err == nil && v != b[0]) {
+			o.Fail("C05.readbyte", "input=%s br=%d n=%d v=%d consumed=%d err=%v", hx.Hex(b), br, n, v, len(b)-rd.Len(), err)
+		}
+	}
+}
+
+func tenc(o *hx.Out, cat string, wide bool, v int64) {
+	var buf bytes.Buffer
+	var n int64
+	var err error
+	op := "tenc32"
+	if !wide {
+		v = int64(int32(v))
+	}
+	p := hx.Try(func() {
+		if wide {
+			op = "tenc64"
+			n, err = pk.VarLong(v).WriteTo(&buf)
+		} else {
+			n, err = pk.VarInt(int32(v)).WriteTo(&buf)
+		}
+	})
+	line := fmt.Sprintf("%s %d err", op, v)
+	if p != "" {
+		line = fmt.Sprintf("%s %d panic", op, v)
+		o.Fail("C05.panic."+op, "v=%d panic=%s", v, p)
+	} else if err == nil {
+		line = fmt.Sprintf("%s %d %s %d", op, v, hx.Hex(buf.Bytes()), n)
+	}
+	o.Case(cat+".translated", v < 0 || v >= 128, fmt.Sprintf("%s %d", op, v), line)
 }
 
 func main() {
@@ -238,6 +352,22 @@ func main() {
 		b := bytes.Repeat([]byte{0xff}, run)
 		dec(o, "dec.truncated", false, b)
 		dec(o, "dec.truncated", true, b)
+	}
+	// translated WriteTo and readByte (phase 4)
+	for k := 0; k <= 64; k++ {
+		for d := -2; d <= 2; d++ {
+			tenc(o, "enc32.boundary", false, int64(int32(uint32(1)<<uint(k%32))+int32(d)))
+			tenc(o, "enc64.boundary", true, int64(uint64(1)<<uint(k%64))+int64(d))
+		}
+	}
+	for i := 0; i < o.N(4000, 25); i++ {
+		tenc(o, "enc32.random", false, int64(int32(r.Next()>>uint(r.Intn(40)))))
+		tenc(o, "enc64.random", true, int64(r.Next())>>uint(r.Intn(64)))
+	}
+	trb(o, nil)
+	for b0 := 0; b0 < 256; b0++ {
+		trb(o, []byte{byte(b0)})
+		trb(o, []byte{byte(b0), byte(r.Next())})
 	}
 	if o.Thorough() && os.Getenv("VERIF_C05_ALL32") != "" {
 		// all 2^32 values against the reference (predicate only)
